@@ -97,11 +97,14 @@ pub fn plan(prop: &str, tier: Tier, cfg_b: bool) -> Option<Plan> {
             r.fail_pct = 25;
             r.intr_pct = 25;
             exh_access = true;
+            wide_every = if q { 8000 } else { 40_000 };
         }
         "C02" => {
             r.fail_pct = 20;
             r.intr_pct = 20;
             r.reverse_pct = 50;
+            // fan-in / fan-out wider than any plausible narrow counter type
+            wide_every = if q { 3000 } else { 15_000 };
         }
         "C03" => {
             r.fail_pct = 8;
@@ -143,6 +146,7 @@ pub fn plan(prop: &str, tier: Tier, cfg_b: bool) -> Option<Plan> {
         "C09" => {
             r.fail_pct = 30;
             r.intr_pct = 45;
+            wide_every = if q { 8000 } else { 40_000 };
         }
         "C10" => {
             r.limit_pct = 100;
